@@ -72,6 +72,15 @@ Laws(T0, T1, R, ordered, reduce) ==
                   moved == ordered /\ ~one /\ IndexIn(k0, d) # IndexIn(k1, d)
               IN (one \/ moved) => (p \o <<d>>) \in {RP(x) : x \in RN}
    ]
+(* reduce=True against reduce=False for the same inputs: the reduced result is the full result restricted to the
+   marked nodes and their ancestors, with the marks they have there.  Marks are compared by class (which of several
+   added clones becomes "moved here" is not pinned and may differ between two calls). *)
+MarkClass(m) == IF m \in AddedLike THEN "added" ELSE IF m \in RemovedLike THEN "removed" ELSE m
+ReduceRestricts(RF, R) ==
+   LET KeptF == {x \in Reach(RF) : RF.mark[x] # "none" \/ \E y \in Desc(RF, x) : RF.mark[y] # "none"}
+   IN /\ {PathOf(R, x) : x \in Reach(R)} = {PathOf(RF, x) : x \in KeptF}
+      /\ \A x \in Reach(R) : \A y \in KeptF :
+            PathOf(R, x) = PathOf(RF, y) => MarkClass(R.mark[x]) = MarkClass(RF.mark[y])
 LawNames == {"sibling_unique", "identical_no_marks", "projects_to_t1", "projects_to_t0", "marks_one_sided", "moved_pairs",
              "order_marks", "reduce_only_marked", "reduce_complete"}
 =============================================================================
